@@ -14,8 +14,7 @@ def hqB (h : Option ProxyS) (e : ESock) : Bool :=
     !p.sw.connecting && p.sw.buf.flatten.isEmpty && p.mw.buf.flatten.isEmpty &&
     (p.sw.shutR || (e.pending.isEmpty && !e.eofIn)) &&
     (!p.sw.shutR || p.mw.shutW) && (!p.mw.shutR || p.sw.shutW) &&
-    (!p.sw.shutW || p.mw.shutR) && (!p.mw.shutW || p.sw.shutR) &&
-    (!(p.sw.shutR && p.mw.shutR) || !p.ok)
+    (!p.sw.shutW || p.mw.shutR) && (!p.mw.shutW || p.sw.shutR)
 
 def quietB (w : World) : Bool :=
   w.cm.out.isEmpty && w.sm.out.isEmpty && w.flows.all fun f => hqB f.c f.app && hqB f.s f.dst
